@@ -8,6 +8,7 @@ package presharedkey
 // the authenticator stores exactly the SHA-256 digest of every configured key, in order; no key list, no authenticator
 //@ func NewPresharedKeyAuthenticator(validKeys) (a, err)
 //@   option nosafety
+//@   modifies nothing
 //@   loop 0 invariant fresh(hashes) && len(hashes) == $idx + 1 && $idx < len(validKeys) && forall j int :: 0 <= j && j <= $idx ==> hashes[j] == sha256of(validKeys[j])
 //@   ensures @needsKey err == nil <==> len(validKeys) >= 1
 //@   ensures @digests err == nil ==> a != nil && len(a.validKeyHashes) == len(validKeys) && forall j int :: 0 <= j && j < len(validKeys) ==> a.validKeyHashes[j] == sha256of(validKeys[j])
@@ -17,6 +18,7 @@ package presharedkey
 // is hashed as presented (no trimming, no case folding), every configured digest is compared, nothing else is consulted
 //@ func (*PresharedKeyAuthenticator).Authenticate(pka, ctx) (claims, err)
 //@   option nosafety
+//@   modifies nothing
 //@   requires pka != nil
 //@   loop 0 invariant (matched == 0 || matched == 1) && $idx < len(pka.validKeyHashes) && tokenHash == sha256of(bearerToken(ctx))
 //@   loop 0 invariant @found matched == 1 <==> (exists j int :: 0 <= j && j <= $idx && pka.validKeyHashes[j] == sha256of(bearerToken(ctx)))
@@ -27,7 +29,10 @@ package presharedkey
 // end to end: with a collision-free digest (cryptographic assumption on SHA-256, stated here), a request is accepted
 // exactly when its bearer token equals one of the configured keys
 //@ lemma presharedkey_accepts_exactly_configured_keys(keys []string, ctx context.Context)
+//@   requires len(keys) >= 1
 //@   let a, e = NewPresharedKeyAuthenticator(keys)
 //@   let c, err = (*PresharedKeyAuthenticator).Authenticate(a, ctx)
 //@   assume forall x string, y string :: sha256of(x) == sha256of(y) ==> x == y
-//@   ensures e == nil ==> (err == nil <==> (!bearerMissing(ctx) && (exists j int :: 0 <= j && j < len(keys) && keys[j] == bearerToken(ctx))))
+//@   ensures @constructed e == nil
+//@   ensures @sound err == nil ==> (!bearerMissing(ctx) && (exists j int :: 0 <= j && j < len(keys) && keys[j] == bearerToken(ctx)))
+//@   ensures @complete forall j int :: 0 <= j && j < len(keys) && keys[j] == bearerToken(ctx) && !bearerMissing(ctx) ==> err == nil
